@@ -128,6 +128,8 @@ fn parse_args(args: &[&str]) -> Result<ParsedInfo, Box<dyn Error>> {
         && (args[i] == "-" || !args[i].starts_with('-'))
         && args[i] != "!"
         && args[i] != "("
+        && args[i] != ")"
+        && args[i] != ","
     {
         paths.push(args[i].to_string());
         i += 1;
